@@ -5,8 +5,58 @@ use metrics_util::MetricKindMask;
 use std::time::Duration;
 use vreplay::*;
 
+/// a usage history on one key: per step the kind observed, the number of updates since the previous step and the time passed
+fn history(plan: &Plan) -> ! {
+    use metrics::{CounterFn, GaugeFn, HistogramFn};
+    let g = |k: &str| plan.inputs.get(k).copied().unwrap_or(0);
+    let n = g("n") as usize;
+    let mask = MetricKindMask::NONE
+        | if g("mask") & 1 != 0 { MetricKindMask::COUNTER } else { MetricKindMask::NONE }
+        | if g("mask") & 2 != 0 { MetricKindMask::GAUGE } else { MetricKindMask::NONE }
+        | if g("mask") & 4 != 0 { MetricKindMask::HISTOGRAM } else { MetricKindMask::NONE };
+    let timeout = if g("has_timeout") != 0 { Some(Duration::from_nanos(g("timeout"))) } else { None };
+    let (clock, mock) = quanta::Clock::mock();
+    let recency = Recency::new(clock, mask, timeout);
+    let registry: Registry<Key, GenerationalAtomicStorage> = Registry::new(GenerationalAtomicStorage::atomic());
+    let key = Key::from_name("k");
+    // reference, from the property text: per kind (generation at the last change seen, time of that observation)
+    let mut seen: [Option<(u64, u64)>; 3] = [None, None, None];
+    let mut gen: [u64; 3] = [0, 0, 0];
+    let mut total: [u64; 3] = [0, 0, 0];
+    let mut now = 0u64;
+    let mut v = vec![];
+    for i in 0..n {
+        let (kind, upd, dt) = (g(&format!("kind{}", i)) as usize, g(&format!("upd{}", i)), g(&format!("dt{}", i)));
+        now += dt;
+        mock.increment(dt);
+        let real_gen;
+        let got;
+        match kind {
+            0 => { let h = registry.get_or_create_counter(&key, |c| c.clone()); for _ in 0..upd { CounterFn::increment(&h, 1); } real_gen = h.get_generation(); got = recency.should_store_counter(&key, real_gen, &registry); }
+            1 => { let h = registry.get_or_create_gauge(&key, |c| c.clone()); for _ in 0..upd { GaugeFn::increment(&h, 1.0); } real_gen = h.get_generation(); got = recency.should_store_gauge(&key, real_gen, &registry); }
+            _ => { let h = registry.get_or_create_histogram(&key, |c| c.clone()); for _ in 0..upd { HistogramFn::record(&h, 1.0); } real_gen = h.get_generation(); got = recency.should_store_histogram(&key, real_gen, &registry); }
+        }
+        gen[kind] += upd;
+        total[kind] += upd;
+        let covered = timeout.is_some() && g("mask") & (1 << kind) != 0;
+        let unchanged = matches!(seen[kind], Some((sg, _)) if sg == gen[kind]);
+        let drop = covered && unchanged && now - seen[kind].unwrap().1 > g("timeout");
+        println!("step {}: kind {} updates {} now {} generation {:?} -> should_store = {} (expected {})", i, kind, upd, now, real_gen, got, !drop);
+        if got == drop { v.push("dropped_exactly_when_idle_longer_than_the_timeout"); }
+        let present = match kind { 0 => registry.get_counter(&key).is_some(), 1 => registry.get_gauge(&key).is_some(), _ => registry.get_histogram(&key).is_some() };
+        if present == drop { println!("  registry entry present = {} after expected drop = {}", present, drop); v.push("dropped_exactly_when_idle_longer_than_the_timeout"); }
+        if drop { seen[kind] = None; gen[kind] = 0; total[kind] = 0; } else if covered && !unchanged { seen[kind] = Some((gen[kind], now)); }
+        if kind == 0 && !drop {
+            let val = registry.get_counter(&key).map(|c| c.get_inner().load(std::sync::atomic::Ordering::Relaxed));
+            if val != Some(total[0]) { println!("  counter value {:?}, expected {} (full value / fresh series from zero)", val, total[0]); v.push("dropped_exactly_when_idle_longer_than_the_timeout"); }
+        }
+    }
+    finish(&v, plan)
+}
+
 fn main() {
     let plan = load_plan(&std::env::args().nth(1).expect("plan"));
+    if plan.scenario == "c12_history" { history(&plan); }
     let g = |k: &str| plan.inputs.get(k).copied().unwrap_or(0);
     let (now0, now1, now2, gen0, gen1, timeout) = (g("now0"), g("now1"), g("now2"), g("gen0"), g("gen1"), g("timeout"));
     let (clock, mock) = quanta::Clock::mock();
